@@ -51,4 +51,4 @@ Example three_orders :
   apply_wops [WNamed "n"; WSer; WCached] (Raw s) = apply_wops [WCached; WNamed "n"; WSer] (Raw s)
   /\ apply_wops [WSer; WNamed "n"] (Raw s) = Ok (Wrapped (mk s (Some "n") false))
   /\ apply_wops [WNamed "n"; WNamed "m"] (Raw s) = Err.
-Proof. cbv. repeat split. Qed.
+Proof. repeat split; vm_compute; reflexivity. Qed.
